@@ -49,6 +49,7 @@ def strategy(tier, phase):
             "perm": st.lists(st.integers(0, 9), min_size=1, max_size=12),
             "entry": st.integers(0, 2),
             "dag": st.sampled_from([True, True, False]),
+            "passthrough": st.sampled_from([0, 0, 1, 2, 5]),
             # consumers that are in no graph (a node removed with its inputs still attached, or built and never
             # inserted): they add uses to values without being part of what is sorted
             "orphans": st.one_of(st.just([]), st.lists(st.tuples(st.integers(0, 30), st.integers(0, 1)).map(list), min_size=1, max_size=4)),
@@ -156,6 +157,17 @@ def build(case):
         lst = list(graphs[g])
         if lst:
             graphs[g].outputs.append(lst[-1].outputs[0])
+        elif graph_parent_node[g] is not None and case.get("passthrough"):
+            # a nested graph without nodes that hands an outer value through as its output (accepted by the API): the value
+            # is then listed by a graph that contributes nothing to the sort, while its producer and consumers do
+            holder = graph_parent_node[g]
+            vis = ancestors(node_graph[holder])
+            cands = [j for j in range(len(recs)) if node_graph[j] in vis and j != holder and not nodes[j].outputs[0].is_graph_output()]
+            if cands:
+                try:
+                    graphs[g].outputs.append(nodes[cands[case["passthrough"] % len(cands)]].outputs[0])
+                except ValueError:
+                    pass
     for r, oi in case.get("orphans") or []:
         src = nodes[r % len(nodes)]
         ORPHANS.append(ir.Node("", "Orphan", [src.outputs[oi % len(src.outputs)]], num_outputs=1, name=f"orphan{len(ORPHANS)}"))
